@@ -241,6 +241,70 @@ theorem written_items_are_found_by_lines (maxSize maxFiles nowMs : Nat) (hist : 
   rw [hk, hitems0, List.nil_append] at h2
   exact h2
 
+/-- **Search on a crash state** (the directory is any well-formed one whose last file may end in a torn line, a torn index
+entry, or still lack its index file): the time-range search returns every held item of the window, in order, followed by at
+most one more item (the torn line misread), and it does not fail. -/
+theorem search_range_crash (fs : FS) (al : List AFile) (hrep : Rep fs al) (hwf : WF al)
+    (hcap : (al.flatMap AFile.items).length + 1 < MAX_ITEM_AMOUNT)
+    (htorn : ∀ f ∈ al.dropLast, f.tail = []) (b e : Nat) (res : List Char) :
+    ∃ extra, extra.length ≤ 1 ∧
+      (searchRange fs {} b e res).2 = some (specRange ((al.flatMap AFile.items).map stored) b e res ++ extra) := by
+  unfold searchRange
+  have hstart : startFiles fs {} b = al.map (·.id) := by simp [startFiles, cacheOk, hrep.listing]
+  rw [hstart]
+  rcases start_decomp fs al hrep hwf b with ⟨hnone, hearly⟩ | ⟨A, f, B, pre, g, post, hal, hgs, hfs, hitems, hearly, hlo, hsorted⟩
+  · rw [hnone]
+    refine ⟨[], by simp, ?_⟩
+    have := assemble (al.flatMap AFile.items) [] b e res hearly (by simp) (by simp)
+    simp only [List.append_nil, List.map_nil, List.takeWhile_nil, List.filter_nil] at this
+    rw [this]; rfl
+  · rw [hfs]
+    simp only []
+    have hfmem : f ∈ al := by rw [hal]; simp
+    have hBmem : ∀ x ∈ B, x ∈ al := by intro x hx; rw [hal]; simp [hx]
+    have hgoodpost : ∀ it ∈ groupsItems (g :: post), GoodItem it := by
+      intro it hit
+      obtain ⟨g', hg', hig⟩ := List.mem_flatMap.mp hit
+      exact hwf.good f hfmem g' (by rw [hgs]; simp [List.mem_cons.mp hg']) it hig
+    have hspec := assemble _ _ b e res hearly hlo hsorted
+    rw [hitems, hspec]
+    rw [hitems] at hcap
+    simp only [List.length_append] at hcap
+    unfold readRange
+    simp only [hrep.logs f hfmem]
+    cases B with
+    | nil =>
+      obtain ⟨extra, c, he, hr, _⟩ := rangeOneFile_torn f.groups pre (g :: post) hgs f.tail (hwf.tails f hfmem).1 (b / 1000) (e / 1000) res 0
+        hgoodpost (by omega)
+      refine ⟨extra, he, ?_⟩
+      simp only [AFile.log, hr, List.map_nil, rangeRest, ite_self, List.flatMap_nil, List.append_nil]
+    | cons g2 more =>
+      have hdl : (A ++ f :: g2 :: more).dropLast = A ++ f :: (g2 :: more).dropLast := dropLast_append_cons A f (g2 :: more) (by simp)
+      have hflive : f.tail = [] := htorn f (by rw [hal, hdl]; simp)
+      have hlog : f.log = groupsBytes f.groups := by simp [AFile.log, hflive]
+      have hr := rangeOneFile_live f.groups pre (g :: post) hgs (b / 1000) (e / 1000) res 0 hgoodpost (by omega)
+      rw [hlog, hr]
+      simp only []
+      by_cases hall : ((groupsItems (g :: post)).map stored).all (inWin (b / 1000) (e / 1000)) = true
+      · simp only [hall, if_true]
+        have hle : (List.filter (resMatch res) (List.takeWhile (inWin (b / 1000) (e / 1000)) (List.map stored (groupsItems (g :: post))))).length ≤ (groupsItems (g :: post)).length := by
+          refine Nat.le_trans (List.length_filter_le _ _) (Nat.le_trans (length_takeWhile_le' _ _) (by simp))
+        obtain ⟨extra, he, hrr⟩ := rangeRest_torn fs (g2 :: more) (fun x hx => hrep.logs x (hBmem x hx))
+          (fun x hx => htorn x (by rw [hal, hdl]; simp [hx]))
+          (fun x hx => (hwf.tails x (hBmem x hx)).1)
+          (fun x hx it hit => by
+            obtain ⟨g', hg', hig⟩ := List.mem_flatMap.mp hit
+            exact hwf.good x (hBmem x hx) g' hg' it hig) (b / 1000) (e / 1000) res
+          (List.filter (resMatch res) (List.takeWhile (inWin (b / 1000) (e / 1000)) (List.map stored (groupsItems (g :: post))))) (by omega)
+        refine ⟨extra, he, ?_⟩
+        rw [hrr, List.map_append, takeWhile_append_pos _ _ _ hall, takeWhile_all _ _ hall]
+        simp [List.filter_append]
+      · have hall' : ((groupsItems (g :: post)).map stored).all (inWin (b / 1000) (e / 1000)) = false := by simpa using hall
+        simp only [hall', Bool.false_eq_true, if_false]
+        refine ⟨[], by simp, ?_⟩
+        rw [List.map_append, takeWhile_append_neg _ _ _ hall', List.append_nil]
+
+
 /-- retention: a roll-over keeps the newest `maxFiles - 1` files (all of them while there are fewer) -/
 theorem retention_keeps_newest (n maxFiles : Nat) (h : 0 < maxFiles) : n - dropCount n maxFiles = min n (maxFiles - 1) := by
   unfold dropCount; split <;> omega
